@@ -189,7 +189,7 @@ def o47(ctx):
     ctx.count(total, {"functions": quals})
 
 
-def obligations():
+def _obligations():
     return [
         Obligation("O4.1", "StopgapMotl.pairs is the documented bijective renaming of the 14 shared fields", o41, floor=15),
         Obligation("O4.2", "convert_to_sg_motl / convert_to_motl copy each field to its renamed column; halfset parity; motl_idx", o42, floor=50),
@@ -198,3 +198,7 @@ def obligations():
         Obligation("O4.6a", "STAR writer on the via-file path: cell text reads back to the value (shared with C02)", _star.o23, floor=30),
         Obligation("O4.6b", "STAR reader on the via-file path: numeric conversion and block tables (shared with C02)", _star.o24, floor=5),
     ]
+
+
+def obligations():
+    return _obligations() + [effects_obligation("C04")]
